@@ -102,9 +102,13 @@ def run_real(sc: Scenario, mode, workdir, serial=True, cpus=2, rids=None, qids=N
     args = Args.parse(argv)
     if mode == "single":
         args.outputMode = "single"
-    old = wc.p_imap
+    # the coordinator maps the per-query worker over the queries with one of p_tqdm's pool maps;
+    # in serial mode every such name found in the module is replaced by an in-process ordered map
+    pool_names = [n for n in ("p_imap", "p_uimap", "p_map", "p_umap") if hasattr(wc, n)]
+    old_maps = {n: getattr(wc, n) for n in pool_names}
     if serial:
-        wc.p_imap = serial_imap
+        for n in pool_names:
+            setattr(wc, n, serial_imap)
     err = None
     try:
         exts = [SeedCatcher(seedpath)] + list(extensions or [])
@@ -118,7 +122,8 @@ def run_real(sc: Scenario, mode, workdir, serial=True, cpus=2, rids=None, qids=N
         except Exception:
             pass
     finally:
-        wc.p_imap = old
+        for n, f in old_maps.items():
+            setattr(wc, n, f)
     out = {}
     base, ext = os.path.splitext(opath)
     for n, p in [(0, opath), (1, f"{base}_1{ext}"), (2, f"{base}_2{ext}")]:
@@ -184,7 +189,9 @@ def chimeric(rng, R, noisy=True):
 
 def gen_scenario(rng: random.Random, kind=None) -> Scenario:
     kind = kind or rng.choice(["plain", "plain", "noisy", "chimeric", "indel", "degenerate", "params", "multi_ref"])
-    nref = 1 if kind not in ("multi_ref", "degenerate") else rng.randrange(1, 4)
+    nref = 1 if kind not in ("multi_ref", "degenerate", "translocation") else rng.randrange(1, 4)
+    if kind == "translocation":
+        nref = rng.randrange(2, 4)
     refs = []
     for i in range(nref):
         R = gens.make_reference(rng, rng.randrange(40, 140), 9000, rng.choice([500, 2000]))
@@ -195,7 +202,15 @@ def gen_scenario(rng: random.Random, kind=None) -> Scenario:
     for qi in ids:
         R = rng.choice(refs)[2]
         r = rng.random()
-        if kind == "chimeric" and r < 0.6:
+        if kind == "translocation" and len(refs) > 1 and r < 0.7:
+            # head from one reference, tail from another one: first- and second-pass records of ONE query
+            # on two DIFFERENT references
+            Ra, Rb = rng.sample([x[2] for x in refs], 2)
+            Q1, _, _ = gens.make_query(rng, Ra, False)
+            Q2, _, _ = gens.make_query(rng, Rb, False)
+            base = Q1[-1] + rng.randrange(3000, 15000)
+            Q = Q1 + [base + q for q in Q2]
+        elif kind == "chimeric" and r < 0.6:
             Q = chimeric(rng, R)
         elif kind == "indel" or (kind == "noisy"):
             Q, _, _ = gens.make_query(rng, R, True)
@@ -277,23 +292,8 @@ def run_modes(sc, modes, rids=None, qids=None, it=1):
     return out
 
 
-def readback(path, rpath, qpath):
-    """read one written XMAP with the project's own reader (pairs with coordinates)"""
-    from src.parsers.cmap_reader import CmapReader
-    from src.parsers.xmap_reader import XmapReader
-    from src.parsers.xmap_alignment_pair_parser import XmapAlignmentPairWithDistanceParser
+def _summarise_alignments(als):
     import math
-    try:
-        with open(rpath) as f:
-            refs = CmapReader().readReferences(f)
-        with open(qpath) as f:
-            qs = [q.trim() for q in CmapReader().readQueries(f)]
-        with open(path) as f:
-            als = XmapReader(XmapAlignmentPairWithDistanceParser(refs, qs)).readAlignments(f)
-    except BaseException as e:  # noqa
-        if isinstance(e, (KeyboardInterrupt, MemoryError)):
-            raise
-        return {"error": type(e).__name__ + ": " + str(e)[:200]}
     out = []
     for a in als:
         hit = a.cigarString
@@ -305,7 +305,41 @@ def readback(path, rpath, qpath):
                     "rl": a.referenceLength,
                     "pairs": [(int(p.reference.siteId), float(p.reference.position), int(p.query.siteId), float(p.query.position))
                               for p in a.alignedPairs]})
-    return {"alignments": out}
+    return out
+
+
+def readback_all(paths, rpath, qpath):
+    """read every written XMAP of one run with ONE reader object of the project (as `Program` holds
+    one `xmapReader`), pairs with coordinates looked up from the maps"""
+    from src.parsers.cmap_reader import CmapReader
+    from src.parsers.xmap_reader import XmapReader
+    from src.parsers.xmap_alignment_pair_parser import XmapAlignmentPairWithDistanceParser
+    out = {}
+    try:
+        with open(rpath) as f:
+            refs = CmapReader().readReferences(f)
+        with open(qpath) as f:
+            qs = [q.trim() for q in CmapReader().readQueries(f)]
+        reader = XmapReader(XmapAlignmentPairWithDistanceParser(refs, qs))
+    except BaseException as e:  # noqa
+        if isinstance(e, (KeyboardInterrupt, MemoryError)):
+            raise
+        return {n: {"error": type(e).__name__ + ": " + str(e)[:200]} for n in paths}
+    for n, path in sorted(paths.items()):
+        if not os.path.exists(path):
+            continue
+        try:
+            with open(path) as f:
+                out[n] = {"alignments": _summarise_alignments(reader.readAlignments(f))}
+        except BaseException as e:  # noqa
+            if isinstance(e, (KeyboardInterrupt, MemoryError)):
+                raise
+            out[n] = {"error": type(e).__name__ + ": " + str(e)[:200]}
+    return out
+
+
+def readback(path, rpath, qpath):
+    return readback_all({0: path}, rpath, qpath).get(0, {"error": "missing file"})
 
 
 def run_modes_rb(sc, modes, rids=None, qids=None, it=1, do_readback=True):
@@ -318,9 +352,7 @@ def run_modes_rb(sc, modes, rids=None, qids=None, it=1, do_readback=True):
             line = run_line(sc, mode, res["seeds"], rids=rids, qids=qids, it=it)
             rb = {}
             if do_readback and not res["error"]:
-                for n, p in res["paths"].items():
-                    if os.path.exists(p):
-                        rb[n] = readback(p, os.path.join(d, "r.cmap"), os.path.join(d, "q.cmap"))
+                rb = readback_all(res["paths"], os.path.join(d, "r.cmap"), os.path.join(d, "q.cmap"))
             out[mode] = {"real": res, "line": line, "real_out": real_run_output(res), "cands": rc.items, "readback": rb}
     return out
 
@@ -433,7 +465,7 @@ class Sleeper(Extension):
         import time
         import zlib
         q = message.data.query
-        h = zlib.crc32(f"{self.seed}:{int(q.moleculeId)}:{len(q.positions)}".encode())
+        h = zlib.crc32(f"{self.seed}:{int(q.moleculeId)}:{len(q.positions)}:{q.positions[0] if len(q.positions) else 0}".encode())
         time.sleep((h % (self.max_ms + 1)) / 1000.0)
 
 
@@ -506,12 +538,36 @@ def gen_c11(rng: random.Random, nq=6):
         if rng.random() < 0.5:
             win = gens.mirror(win)
             win = [p - win[0] for p in win]
-        queries.append((qi, win[-1] + 1, win))
+        trailing = rng.choice([0, 0, unit, 3 * unit, 7 * unit])       # unlabelled stretch after the last label
+        queries.append((qi, win[-1] + 1 + trailing, win))
     P = dict(gens.DEFAULT_P, md=md)
     extra = {}
     if rng.random() < 0.5:
         extra["-sj"] = rng.choice([1, 0.5, 0.1, 0])
         extra["-ss"] = rng.choice([0, 1])
     sc = Scenario(refs, queries, P, extra, None, "c11")
-    mir = Scenario(refs, [(qi, ln, [ps[-1] - p for p in reversed(ps)]) for qi, ln, ps in queries], P, extra, None, "c11-mirror")
+    # the mirror image of the WHOLE molecule (its unlabelled tail becomes an unlabelled head)
+    mir = Scenario(refs, [(qi, ln, [ln - 1 - p for p in reversed(ps)]) for qi, ln, ps in queries], P, extra, None, "c11-mirror")
     return sc, mir
+
+
+def tie_flank_query(rng, R, qid):
+    """a molecule whose middle aligns in the first pass and whose two flanks (exact copies of two
+    other reference regions with the same number of labels) are both re-aligned in the second pass
+    with exactly the same confidence — the per-query filter must not depend on arrival order"""
+    n = len(R)
+    nf, nm = 8, 18
+    a = rng.randrange(n // 2, 3 * n // 4)     # deep enough in the reference for both flanks to be placeable
+    m = rng.randrange(n // 8, n // 4)
+    def rel(i, k):
+        w = R[i:i + k]
+        return [p - w[0] for p in w]
+    A, M = rel(a, nf), rel(m, nm)
+    B = A                      # both flanks copy the SAME reference region: their second-pass alignments tie
+    gap = 40000
+    pos = list(A)
+    base = pos[-1] + gap
+    pos += [base + p for p in M]
+    base = pos[-1] + gap
+    pos += [base + p for p in B]
+    return (qid, pos[-1] + 1, pos)
